@@ -9,7 +9,7 @@ needs, which vector types exist) is derived from the closed set.
 
 IMPLIES = {
     'AVX10_2': ['AVX10_1'],
-    'AVX10_1': ['AVX2', 'FMA'],
+    'AVX10_1': ['AVX2'],
     'GFNI': ['AVX512F'],
     'AVX512VBMI2': ['AVX512F'],
     'AVX512VBMI': ['AVX512F'],
@@ -23,13 +23,12 @@ IMPLIES = {
     'FMA': ['AVX'],
     'AVX2': ['AVX'],
     'AVX': ['SSE4_2'],
-    'SSE4_2': ['SSE4_1', 'POPCNT'],
-    'SSE4_1': ['SSSE3'],
+    'SSE4_2': ['SSE4_1'],
+    'SSE4_1': ['SSSE3', 'POPCNT'],
     'SSSE3': ['SSE3'],
     'SSE3': ['SSE2'],
-    'SSE2': ['SSE'],
-    'SSE': ['PREFETCH', 'X86'],
-    'BMI2': ['X86'],
+    'SSE2': ['X86'],
+    'BMI2': ['BMI'],
     'BMI': ['X86'],
     'LZCNT': ['X86'],
     'POPCNT': ['X86'],
